@@ -38,8 +38,14 @@ func genGroupRM(t *rapid.T, rt reflect.Type, firstID int) map[string]string {
 		}
 		k := rapid.IntRange(1, len(fields)).Draw(t, "nMembers")
 		perm := rapid.Permutation(fields).Draw(t, "members")[:k]
+		// group ids are drawn from a small set, so an either group and a botheq group of
+		// one object can carry the same id (they are still two groups)
+		id := firstID + rapid.IntRange(0, 1).Draw(t, "groupID")
 		for _, name := range perm {
-			item := fmt.Sprintf("%s=%d", kind, firstID+g)
+			item := fmt.Sprintf("%s=%d", kind, id)
+			if strings.Contains(","+rm[name]+",", ","+item+",") {
+				continue
+			}
 			if rm[name] == "" {
 				rm[name] = item
 			} else {
@@ -96,6 +102,7 @@ func forceGroups(t *rapid.T, ty *desc.T) {
 	for g := 1; g <= n; g++ {
 		kind := rapid.SampledFrom([]string{"either", "botheq"}).Draw(t, "groupKind")
 		want := ty.Fields[scal[rapid.IntRange(0, len(scal)-1).Draw(t, "kindOf")]].T.K
+		id := rapid.IntRange(1, 2).Draw(t, "groupID") // ids may coincide across kinds
 		for _, i := range scal {
 			f := &ty.Fields[i]
 			if f.T.K != want || rapid.IntRange(0, 3).Draw(t, "member") == 0 {
@@ -104,7 +111,10 @@ func forceGroups(t *rapid.T, ty *desc.T) {
 			if f.Tags == nil {
 				f.Tags = map[string]string{}
 			}
-			item := fmt.Sprintf("%s=%d", kind, g)
+			item := fmt.Sprintf("%s=%d", kind, id)
+			if strings.Contains(","+f.Tags["valid"]+",", ","+item+",") {
+				continue
+			}
 			if f.Tags["valid"] == "" {
 				f.Tags["valid"] = item
 			} else {
@@ -129,8 +139,12 @@ func genGroupMapCase(t *rapid.T) *GroupMapCase {
 	for g := 1; g <= n; g++ {
 		kind := rapid.SampledFrom([]string{"either", "botheq"}).Draw(t, "groupKind")
 		k := rapid.IntRange(1, 4).Draw(t, "nMembers")
+		id := rapid.IntRange(1, 2).Draw(t, "groupID") // ids may coincide across kinds
 		for _, key := range rapid.Permutation(keys).Draw(t, "members")[:k] {
-			item := fmt.Sprintf("%s=%d", kind, g)
+			item := fmt.Sprintf("%s=%d", kind, id)
+			if strings.Contains(","+c.Rules[key]+",", ","+item+",") {
+				continue
+			}
 			if c.Rules[key] == "" {
 				c.Rules[key] = item
 			} else {
